@@ -1,11 +1,12 @@
 //! Shared runner for C07 / C08: drives the real DataSetReader over a byte-counting
 //! source and a position-spying stateful decoder, and prints what happened as Coq terms.
-use dicom_core::header::{DataElementHeader, Header, Length, SequenceItemHeader};
+use dicom_core::header::{DataElementHeader, Length, SequenceItemHeader};
 use dicom_core::value::PrimitiveValue;
 use dicom_core::{Tag, VR};
 use dicom_encoding::text::SpecificCharacterSet;
 use dicom_encoding::transfer_syntax::TransferSyntax;
 use dicom_parser::dataset::read::{DataSetReader, DataSetReaderOptions, Error as ReadError, OddLengthStrategy, ValueReadStrategy};
+use dicom_parser::dataset::lazy_read::{Error as LazyError, LazyDataSetReader, LazyDataSetReaderOptions};
 use dicom_parser::dataset::DataToken;
 use dicom_parser::stateful::decode::{Result as DResult, StatefulDecode, StatefulDecoder};
 use dicom_transfer_syntax_registry::entries::{EXPLICIT_VR_BIG_ENDIAN, EXPLICIT_VR_LITTLE_ENDIAN, IMPLICIT_VR_LITTLE_ENDIAN};
@@ -118,7 +119,14 @@ pub fn err_class(e: &ReadError) -> u32 {
 #[derive(Clone, Copy, Debug, PartialEq, Eq)]
 pub struct Opts { pub ts: Ts, pub strategy: u32 /* 0 interpreted 1 preserved 2 raw */, pub odd: u32 /* 0 accept 1 next-even 2 fail */, pub flexible: bool }
 
-pub struct Step { pub coq: String, pub show: String, pub position: u64, pub consumed: u64, pub header: Option<DataElementHeader>, pub is_value: bool }
+pub struct Step {
+    pub coq: String, pub show: String, pub position: u64, pub consumed: u64,
+    /// kind letter, tag and length as in gen::Expect
+    pub kind: char, pub ktag: (u16, u16), pub len: u32,
+    /// tag carried by the token itself (element header / sequence start)
+    pub tag: Option<(u16, u16)>,
+    pub value_len: usize,
+}
 
 pub struct RunOut {
     pub steps: Vec<Step>,
@@ -149,6 +157,7 @@ pub fn run(data: &[u8], o: Opts) -> RunOut {
         let mut opaque = false;
         let mut body = |reader: &mut dyn Iterator<Item = Result<DataToken, ReadError>>| {
             let mut last_header: Option<DataElementHeader> = None;
+            let mut last_item_len = 0u32;
             loop {
                 if steps.len() >= STEP_LIMIT { status = 2000; break; }
                 let before = count.get();
@@ -169,24 +178,26 @@ pub fn run(data: &[u8], o: Opts) -> RunOut {
                     }
                     Some(Ok(tok)) => {
                         let mut hdr = None;
-                        let mut is_value = false;
+                        let (mut kind, mut ktag, mut len, mut tag, mut value_len) = (' ', (0u16, 0u16), 0u32, None, 0usize);
                         let coq = match &tok {
-                            DataToken::ElementHeader(h) => { hdr = Some(*h); format!("(TElem {} {} {} {})", h.tag.0, h.tag.1, vr_code(h.vr), c_len(h.len)) }
-                            DataToken::SequenceStart { tag, len } => format!("(TSeqStart {} {} {})", tag.0, tag.1, c_len(*len)),
-                            DataToken::PixelSequenceStart => "TPixStart".into(),
-                            DataToken::SequenceEnd => "TSeqEnd".into(),
-                            DataToken::ItemStart { len } => format!("(TItemStart {})", c_len(*len)),
-                            DataToken::ItemEnd => "TItemEnd".into(),
+                            DataToken::ElementHeader(h) => { hdr = Some(*h); kind = 'E'; ktag = (h.tag.0, h.tag.1); len = h.len.0; tag = Some(ktag);
+                                format!("(TElem {} {} {} {})", h.tag.0, h.tag.1, vr_code(h.vr), c_len(h.len)) }
+                            DataToken::SequenceStart { tag: t, len: l } => { kind = 'S'; ktag = (t.0, t.1); len = l.0; tag = Some(ktag); format!("(TSeqStart {} {} {})", t.0, t.1, c_len(*l)) }
+                            DataToken::PixelSequenceStart => { kind = 'P'; ktag = (0x7FE0, 0x0010); len = 0xFFFF_FFFF; tag = Some(ktag); "TPixStart".into() }
+                            DataToken::SequenceEnd => { kind = 's'; ktag = (0xFFFE, 0xE0DD); "TSeqEnd".into() }
+                            DataToken::ItemStart { len: l } => { kind = 'I'; ktag = (0xFFFE, 0xE000); len = l.0; last_item_len = l.0; format!("(TItemStart {})", c_len(*l)) }
+                            DataToken::ItemEnd => { kind = 'i'; ktag = (0xFFFE, 0xE00D); "TItemEnd".into() }
                             DataToken::PrimitiveValue(v) => {
-                                is_value = true;
+                                kind = 'V';
+                                if let Some(h) = last_header { ktag = (h.tag.0, h.tag.1); len = h.len.0; }
                                 let interp = if o.strategy == 0 { last_header.map(|h| h.vr) } else { None };
                                 match c_value(v, interp) { Some(s) => format!("(TValue {})", s), None => { opaque = true; "(TValue PEmpty)".into() } }
                             }
-                            DataToken::ItemValue(b) => format!("(TItemValue {})", c_bytes(b)),
-                            DataToken::OffsetTable(t) => format!("(TOffsets {})", c_list(t.iter().map(|x| x.to_string()))),
+                            DataToken::ItemValue(b) => { kind = 'F'; ktag = (0xFFFE, 0xE000); len = last_item_len; value_len = b.len(); format!("(TItemValue {})", c_bytes(b)) }
+                            DataToken::OffsetTable(t) => { kind = 'O'; ktag = (0xFFFE, 0xE000); len = last_item_len; format!("(TOffsets {})", c_list(t.iter().map(|x| x.to_string()))) }
                         };
-                        if let Some(h) = hdr { last_header = Some(h); }
-                        steps.push(Step { coq, show: format!("{:?}", tok), position: position.get(), consumed: count.get(), header: hdr, is_value });
+                        if let Some(h) = hdr { last_header = Some(h); if h.tag == Tag(0x0008, 0x0005) { opaque = true; } }
+                        steps.push(Step { coq, show: format!("{:?}", tok), position: position.get(), consumed: count.get(), kind, ktag, len, tag, value_len });
                     }
                 }
             }
@@ -213,19 +224,52 @@ pub fn run(data: &[u8], o: Opts) -> RunOut {
     out
 }
 
-/// The VR the Implicit VR LE decoder assigns to a tag, and whether the pixel-representation
-/// override applies to it (dictionary VR `xs`): observed through the real decoder.
-pub fn dict_row(g: u16, e: u16) -> (u32, bool) {
-    use dicom_core::dictionary::{DataDictionary, DataDictionaryEntry, VirtualVr};
-    use dicom_dictionary_std::StandardDataDictionary;
-    let mut bytes = vec![];
-    bytes.extend_from_slice(&g.to_le_bytes());
-    bytes.extend_from_slice(&e.to_le_bytes());
-    bytes.extend_from_slice(&[0, 0, 0, 0]);
+/// The lazy reader over the same spies: every token is materialised with the given value strategy.
+/// Only (kind, tag, length), positions and a coarse status are reported (oracle use only):
+/// status 0 end, 1 InvalidElementLength, 2 InvalidItemLength, 50 other error, 1000 panic.
+pub fn run_lazy(data: &[u8], o: Opts) -> RunOut {
     let count = Rc::new(Cell::new(0u64));
-    let src = CountingReader { data: bytes, pos: 0, count };
-    let mut dec = StatefulDecoder::new_with(src, &Ts::Ile.ts(), SpecificCharacterSet::default(), 0).expect("decoder");
-    let vr = dec.decode_header().map(|h| h.vr).unwrap_or(VR::UN);
-    let xs = StandardDataDictionary.by_tag(Tag(g, e)).map(|en| en.vr()) == Some(VirtualVr::Xs);
-    (vr_code(vr), xs)
+    let position = Rc::new(Cell::new(0u64));
+    let src = CountingReader { data: data.to_vec(), pos: 0, count: count.clone() };
+    let mut options = LazyDataSetReaderOptions::default();
+    options.odd_length = match o.odd { 0 => OddLengthStrategy::Accept, 1 => OddLengthStrategy::NextEven, _ => OddLengthStrategy::Fail };
+    let strategy = match o.strategy { 0 => ValueReadStrategy::Interpreted, 1 => ValueReadStrategy::Preserved, _ => ValueReadStrategy::Raw };
+    let mut out = RunOut { steps: vec![], status: 0, rejected: vec![], opaque: false };
+    let res = catch(|| {
+        let dec = StatefulDecoder::new_with(src, &o.ts.ts(), SpecificCharacterSet::default(), 0).expect("decoder");
+        let spy = Spy { inner: dec, position: position.clone() };
+        let mut r = LazyDataSetReader::new_with_options(spy, options);
+        let mut steps: Vec<Step> = vec![];
+        let mut status = 0u32;
+        let mut last_header: Option<DataElementHeader> = None;
+        let mut last_item_len = 0u32;
+        let mut value_failed = false;
+        loop {
+            if steps.len() >= STEP_LIMIT { status = 2000; break; }
+            let tok = match r.advance() {
+                None => break,
+                Some(Err(e)) => { status = match e { LazyError::InvalidElementLength { .. } => 1, LazyError::InvalidItemLength { .. } => 2, _ => 50 }; break; }
+                Some(Ok(t)) => match t.into_owned_with_strategy(strategy) { Ok(t) => t, Err(_) => { status = 50; value_failed = true; break; } },
+            };
+            let (mut kind, mut ktag, mut len, mut value_len) = (' ', (0u16, 0u16), 0u32, 0usize);
+            match &tok {
+                DataToken::ElementHeader(h) => { kind = 'E'; ktag = (h.tag.0, h.tag.1); len = h.len.0; last_header = Some(*h); if h.tag == Tag(0x0008, 0x0005) { break; } }
+                DataToken::SequenceStart { tag: t, len: l } => { kind = 'S'; ktag = (t.0, t.1); len = l.0; }
+                DataToken::PixelSequenceStart => { kind = 'P'; ktag = (0x7FE0, 0x0010); len = 0xFFFF_FFFF; }
+                DataToken::SequenceEnd => { kind = 's'; ktag = (0xFFFE, 0xE0DD); }
+                DataToken::ItemStart { len: l } => { kind = 'I'; ktag = (0xFFFE, 0xE000); len = l.0; last_item_len = l.0; }
+                DataToken::ItemEnd => { kind = 'i'; ktag = (0xFFFE, 0xE00D); }
+                DataToken::PrimitiveValue(_) => { kind = 'V'; if let Some(h) = last_header { ktag = (h.tag.0, h.tag.1); len = h.len.0; } }
+                DataToken::ItemValue(b) => { kind = 'F'; ktag = (0xFFFE, 0xE000); len = last_item_len; value_len = b.len(); }
+                DataToken::OffsetTable(_) => { kind = 'O'; ktag = (0xFFFE, 0xE000); len = last_item_len; }
+            }
+            steps.push(Step { coq: String::new(), show: format!("{:?}", tok), position: position.get(), consumed: count.get(), kind, ktag, len, tag: None, value_len });
+        }
+        (steps, status, value_failed)
+    });
+    match res {
+        Some((steps, status, vf)) => { out.steps = steps; out.status = status; if vf { out.rejected.push((0, vec![])); } }
+        None => out.status = 1000,
+    }
+    out
 }
